@@ -15,23 +15,27 @@ func (cfg *Config) Hook(event casket.EventName, info interface{}) error {
 		return nil
 	}
 
+	// the hook fires every time its event is emitted: the configuration must
+	// stay as it was parsed (stripping the "&" from cfg.Args made every
+	// firing after the first one blocking)
+	args := cfg.Args
 	nonblock := false
-	if len(cfg.Args) >= 1 && cfg.Args[len(cfg.Args)-1] == "&" {
+	if len(args) >= 1 && args[len(args)-1] == "&" {
 		// Run command in background; non-blocking
 		nonblock = true
-		cfg.Args = cfg.Args[:len(cfg.Args)-1]
+		args = args[:len(args)-1]
 	}
 
 	// Execute command.
-	cmd := exec.Command(cfg.Command, cfg.Args...)
+	cmd := exec.Command(cfg.Command, args...)
 	cmd.Stdin = os.Stdin
 	cmd.Stdout = os.Stdout
 	cmd.Stderr = os.Stderr
 	if nonblock {
-		log.Printf("[INFO] Nonblocking Command \"%s %s\" with ID %s", cfg.Command, strings.Join(cfg.Args, " "), cfg.ID)
+		log.Printf("[INFO] Nonblocking Command \"%s %s\" with ID %s", cfg.Command, strings.Join(args, " "), cfg.ID)
 		return cmd.Start()
 	}
-	log.Printf("[INFO] Blocking Command \"%s %s\" with ID %s", cfg.Command, strings.Join(cfg.Args, " "), cfg.ID)
+	log.Printf("[INFO] Blocking Command \"%s %s\" with ID %s", cfg.Command, strings.Join(args, " "), cfg.ID)
 	err := cmd.Run()
 	if err != nil {
 		return err
